@@ -211,6 +211,8 @@ def measure(module: Operation) -> int:
             m += 3
         if "rmo" in op.attributes:
             m += 3
+        if "inlreg" in op.attributes and op.regions and op.regions[0].first_block is not None:
+            m += 3
         for r in op.results:
             if r.type == i32:
                 m += 1
@@ -415,6 +417,21 @@ class Lib:
                 rw.replace_matched_op([n1])
             self.st["match.ReplaceMatchedOp"] += 1
 
+    def p_inline_region(self, op: Operation, rw: PatternRewriter) -> None:
+        # inline_region only: the blocks of the op's region move behind the op's own block
+        if "inlreg" in op.attributes and len(op.regions) == 1 and op.regions[0].first_block is not None and op.parent is not None and op.parent.parent is not None:
+            self.j.add("inline_region", op)
+            rw.inline_region(op.regions[0], BlockInsertPoint.after(op.parent))
+            self.st["match.InlineRegion"] += 1
+
+    def p_replace_none(self, op: Operation, rw: PatternRewriter) -> None:
+        # replace(op, [], [None, ...]): results declared dead (allowed when they have no uses)
+        if "rnone" in op.attributes and op.results and not op.regions and op.parent is not None and all(r.first_use is None for r in op.results):
+            self.j.add("replace", op)
+            self.j.add("remove", op)
+            rw.replace(op, [], [None] * len(op.results))
+            self.st["match.ReplaceByNone"] += 1
+
     def p_hoist(self, op: Operation, rw: PatternRewriter) -> None:
         # inline_block only: move the body of a single-block, argument-free region before the op
         if "hoist" in op.attributes and len(op.regions) == 1:
@@ -484,9 +501,9 @@ class Lib:
 PATTERN_NAMES = (
     "p_dec", "p_expand", "p_fold", "p_single_use", "p_erase_other", "p_replace_producer",
     "p_unwrap", "p_drop_arg", "p_add_arg", "p_retype", "p_region_move", "p_new_block",
-    "p_add_arg2", "p_insert_user", "p_hoist", "p_ruwi", "p_insert_default", "p_replace_matched",
+    "p_add_arg2", "p_insert_user", "p_hoist", "p_ruwi", "p_insert_default", "p_replace_matched", "p_inline_region", "p_replace_none",
 )
-FLAGS = ("dec", "expand", "fold", "su", "eo", "victim", "rp", "victim2", "unwrap", "droparg", "retype", "rm", "addarg2", "insu", "hoist", "insd", "rmo")
+FLAGS = ("dec", "expand", "fold", "su", "eo", "victim", "rp", "victim2", "unwrap", "droparg", "retype", "rm", "addarg2", "insu", "hoist", "insd", "rmo", "inlreg", "rnone")
 
 
 class FnPattern(RewritePattern):
@@ -998,7 +1015,7 @@ class DriverEngine(Engine):
     def rule(self) -> str:
         return (
             "one case = one generated module (2-41 ops, nesting <= 3, multi-block regions, optional arith constants/adds) x one "
-            "ordered subset of 18 terminating patterns x one walker configuration x one seeded worklist schedule "
+            "ordered subset of 20 terminating patterns x one walker configuration x one seeded worklist schedule "
             "(pop policy, spurious wake-ups); oracles I1-I6 evaluated per match and at the end; non-trivial = the walk modified "
             "the IR and popped more items than there were ops; distinct = distinct (config, IR, schedule) choice sequences"
         )
